@@ -595,6 +595,9 @@ def run_C12(tier, rnd, st, res):
         run_sequences(ctx, tier)
         run_refusals(ctx)
         run_histories(ctx)
+        # route layer: plans, keyword maps and post-processing against Model/Routes.lean (harness/routes_model.py)
+        import routes_model
+        routes_model.correspond_routes(ctx, rnd, tier)
         # ------------------------------------------------------------------ judge
         if st.judge_ok:
             outs = run_lines_parallel(JUDGE, ctx.judge_lines, jobs=16)
